@@ -1,6 +1,7 @@
 package sym
 
 import (
+	"os"
 	"fmt"
 	"go/token"
 	"go/types"
@@ -12,6 +13,8 @@ import (
 
 	"verif/engine/smt"
 )
+
+var traceInit = os.Getenv("GOSYMEX_TRACEINIT") != "" // initSteps
 
 type continuation int
 
@@ -948,6 +951,12 @@ func (i *interpreter) initPackage(pkg *ssa.Package) {
 	}
 	initFn := pkg.Func("init")
 	if initFn != nil && initFn.Blocks != nil {
+		t0 := i.steps
+		defer func() {
+			if traceInit {
+				fmt.Fprintf(os.Stderr, "[init] %s: %d steps (incl. nested)\n", pkg.Pkg.Path(), i.steps-t0)
+			}
+		}()
 		i.inLazyInit++
 		savedFrame, savedDepth := i.curFrame, i.depth
 		i.callBody(initFn)
